@@ -79,6 +79,7 @@ class LoopSpec(object):
 
 
 _CONCRETE_REF_BASE = 1000000000
+_LOOP_REF_GAP = 1000000
 AUTO_FRAMES = {}      # (qualname, loop ordinal) -> (tables, fields) learnt
 _LOOP_ORDINALS = {}   # id(function node) -> {id(loop node): ordinal}
 
@@ -303,6 +304,8 @@ class Interp(object):
                 getattr(obj.cls, '__name__', obj.cls), field))
         key = self._arr(obj.cls, field, spec)
         v = self.value_of_term(z3.Select(self.heap[key], obj.ref), spec.ty)
+        if isinstance(v, (SList, SSet, SMap)):
+            v.owner = (obj, field)
         if spec.nullable:
             nn = z3.simplify(z3.Select(self.heap_none[key], obj.ref))
             if z3.is_true(nn):
@@ -318,6 +321,13 @@ class Interp(object):
                 else:
                     v = Sym(to_term(v), spec.ty, nn)
         return v
+
+    def touched(self, v):
+        """a collection read from a heap field was mutated in place: the
+        field now holds the new contents (write-through)"""
+        owner = getattr(v, 'owner', None)
+        if owner is not None and isinstance(v, (SList, SSet, SMap)):
+            self.write_field(owner[0], owner[1], v)
 
     def write_field(self, obj, field, value):
         if not (z3.is_int_value(obj.ref) and
@@ -594,6 +604,11 @@ class Interp(object):
             if is_and and not t:
                 return v
             if not is_and and t:
+                # a truthy value is not None
+                if isinstance(v, Sym) and v.none is not None:
+                    return Sym(v.t, v.ty)
+                if isinstance(v, Obj) and v.none is not None:
+                    return Obj(v.cls, v.ref)
                 return v
         return v
 
@@ -1089,6 +1104,7 @@ class Interp(object):
             kt = to_term(k, v.kty)
             v.val = z3.Store(v.val, kt, self.term_of_value(val, v.vty))
             v.dom = z3.Store(v.dom, kt, z3.BoolVal(True))
+            self.touched(v)
             return
         if isinstance(v, _NestedView):
             v.set(self, k, val)
@@ -2028,6 +2044,11 @@ class Interp(object):
             for k, f in enumerate(spec.invariant(self, frame, z3.IntVal(0), seq)):
                 self.ex.oblige('%s.init.%d' % (name, k), f, 'A')
         pre_written = set(self.written_fields)
+        # objects allocated by earlier iterations live in a reference range
+        # of their own: (entry mark, entry mark + gap]; this iteration
+        # allocates above it, pre-existing objects lie at or below the mark
+        self.loop_entry_mark = self.next_ref
+        self.next_ref += _LOOP_REF_GAP
         # havoc
         havocked = set()
         replay_colls = []
@@ -2739,6 +2760,11 @@ class _Super(object):
         I.raise_(AttributeError, name)
 
 
+_MUTATING_METHODS = frozenset((
+    'append', 'extend', 'add', 'discard', 'remove', 'update', 'pop',
+    'setdefault', 'clear', 'insert', 'sort'))
+
+
 class _ContainerMethod(object):
     def __init__(self, name):
         self.name = name
@@ -2747,7 +2773,10 @@ class _ContainerMethod(object):
         m = getattr(self, 'm_' + self.name, None)
         if m is None:
             I.undecided('container method %s on %r' % (self.name, recv), node)
-        return m(I, recv, args, kwargs, node)
+        r = m(I, recv, args, kwargs, node)
+        if self.name in _MUTATING_METHODS:
+            I.touched(recv)
+        return r
 
     # dict ----------------------------------------------------------------
     def m_items(self, I, d, a, k, n):
